@@ -4,15 +4,15 @@ import time
 from framework.checklib import CorrResult
 from framework import coqrun
 from harness import gen, tseytincorr as tc
-from translator import t1_operators, t2_tseytin
+from translator import t1_operators, t2_tseytin, t9_circuit_core, t13_tseytin_alg
 
 ID = 'C05'
-TRANSLATORS = [t1_operators.translate, t2_tseytin.translate]
+TRANSLATORS = [t1_operators.translate, t2_tseytin.translate, t9_circuit_core.translate, t13_tseytin_alg.translate]
 PROPERTY_FILE = 'Properties/C05.v'
 THEOREMS = ['C05_template_exact', 'C05_template_total', 'C05_reduction_exact',
             'C05_default_selects_all_outputs', 'C05_returns_on_wellformed', 'C05_fuel_adequate',
             'C05_result_independent_of_fuel', 'C05_circuit_sat_model', 'C05_circuit_unsat',
-            'C05_circuit_sat_answer',
+            'C05_circuit_sat_answer', 'C05_algorithm_regenerated',
             'C05_ex_hypotheses', 'C05_ex_xor3', 'C05_ex_solver', 'C05_ex_query']
 PARTIAL = {}
 LEVEL_TEXT = ('proved for the Gallina model, for all circuits, output selections and total input assignments: every '
@@ -21,9 +21,15 @@ LEVEL_TEXT = ('proved for the Gallina model, for all circuits, output selections
               'outputs evaluate to True, every satisfying extension gives every encoded gate its evaluated value, '
               'input i is variable i+1; it does return on closed acyclic netlists with accepted arities; the '
               'circuit-satisfiability corollary holds for any sound and complete solver. Model tied to /repo by '
-              'regenerating the templates and the dispatch dict (T2) and by EXACT clause-list correspondence of '
-              'tseytin_transformation on generated circuits x selections')
-LEVEL_NOTE = ('Coq kernel + vm_compute; translators T1, T2; correspondence harness and pysat shim; hypotheses of the '
+              'regenerating the templates and the dispatch dict (T2), by regenerating the ALGORITHM on every run (T13: '
+              'tseytin_transformation with its closures __register_new_gate / get_lit / the recursive process_gate, the '
+              'defaultdict, the input numbering loop, the default selection, the output loop and its unit clauses, '
+              'statement by statement over the model state, calling the regenerated Circuit accessors of T9) and '
+              'proving it equal to the hand model for ALL circuits, selections and fuels (C05_algorithm_regenerated, '
+              'no side condition), and by EXACT clause-list correspondence of tseytin_transformation on generated '
+              'circuits x selections')
+LEVEL_NOTE = ('Coq kernel + vm_compute; translators T1, T2, T9 (get_gate, output_at_index), T13 (algorithm; its fixed prelude models '
+              'collections.defaultdict.__getitem__ and the three closure variables as the record tstate; fuel = recursion depth of process_gate; parameter types are read from the annotations); correspondence harness and pysat shim; hypotheses of the '
               'theorems: input list duplicate-free and exactly the INPUT gates, operand counts accepted by the '
               'operators (tseytin_wf), total assignment; (H-solver) the SAT solver is sound and complete (Section '
               'variable, shown satisfiable by an exhaustive-search solver); CPython recursion limit is outside the '
@@ -32,9 +38,15 @@ TECHNIQUE = ('Coq proof: per-template exactness over the regenerated templates (
              'induction on the operand list for AND/OR/NAND/NOR and for the 2^n parity clauses of XOR/NXOR); '
              'whole-formula theorem by induction on the fuel of the memoised recursion with the invariant '
              '"sigma satisfies the clauses so far iff sigma is the evaluation on every allocated literal"; '
-             'translator T2 (Python ast -> Gallina templates); vm_compute correspondence of exact clause lists; '
+             'translator T2 (Python ast -> Gallina templates); translator T13 (Python ast -> Gallina: closures over '
+             'shared state as state-passing functions, the self-recursive closure as a Fixpoint on fuel, loops as foldM / '
+             'mapS) + equality proof with the hand model by induction on the fuel; vm_compute correspondence of exact clause lists; '
              'direct oracle by bit-parallel enumeration of all extensions / unit propagation / shim solver')
-TRUSTED = ['translator T2 (translator/t2_tseytin.py), cross-checked on every run against the live _process_* functions '
+TRUSTED = ['translator T13 (translator/t13_tseytin_alg.py): statement-level translation of tseytin_transformation and its '
+           'closures; trusted for the meaning it gives to Python statements (state-passing reading of the closure variables, '
+           'collections.defaultdict.__getitem__, evaluation order); its output is also covered by the exact clause-list '
+           'correspondence, because it is proved equal to the model that the correspondence evaluates',
+           'translator T2 (translator/t2_tseytin.py), cross-checked on every run against the live _process_* functions '
            'on literal vectors of length 0..6',
            'the pysat shim (picosat / DPLL) for is_circuit_satisfiable and for circuits with more than 14 auxiliary '
            'variables in the oracle; the theorems quantify over any sound and complete solver',
